@@ -830,3 +830,51 @@ fn admit_pending_open(lo: u8, hi: u8) {
 }
 pub fn c05_admit_pending_open_live() { admit_pending_open(0, 5) }
 pub fn c05_admit_pending_open_closed() { admit_pending_open(6, 11) }
+
+// ---------------------------------------------------------------------------
+// C04 / C05: nothing is taken out of a queue while the codec cannot accept a frame
+// ---------------------------------------------------------------------------
+pub(crate) fn stub_pop_frame_unreachable<B>(_p: &mut Prioritize, _b: &mut Buffer<Frame<B>>, _s: &mut Store, _m: usize, _c: &mut Counts) -> Option<Frame<Prioritized<B>>> {
+    panic!("UNREACHABLE-STUB Prioritize::pop_frame")
+}
+
+/// `buffer_pending` with a codec that has no room (a frame is still being written): it
+/// must return CodecFull *without* taking a waiting stream out of `pending_open` - the
+/// stream's HEADERS could not be written in the same critical section, so a reset (or
+/// another stream's open) in the unlocked window would see a half-opened stream: RST on an
+/// idle stream, or stream ids opened out of order.
+pub fn c04_buffer_pending_codec_full() {
+    use crate::codec::verif_h::{codec_buffered, codec_set_blocked, mk_codec, Mock, EXP};
+    let c = cfg();
+    let mut prio = Prioritize::new(&c);
+    let mut counts = Counts::new(peer::Dyn::Client, &c);
+    let mut store = Store::new();
+    let mut buffer: Buffer<F> = buf_h::with_capacity(4);
+    let id = StreamId::from(ID);
+    let mut stream = Stream::new(id, 0, 0);
+    st_h::set_inner_open_streaming(&mut stream.state);
+    stream.ref_count = 1;
+    stream.is_pending_open = true;
+    let key = store_h::insert_slab_only(&mut store, stream);
+    store_h::queue_set_single(&mut prio.pending_open, key);
+    let num: usize = kani::any();
+    let max: usize = kani::any();
+    counts_h::set_counts(&mut counts, num, max, 0, usize::MAX);
+    let mut codec = mk_codec::<Prioritized<SymBuf>>(Mock::new([0; EXP], 0, 0));
+    codec_set_blocked(&mut codec, true);
+    let r = prio.buffer_pending(&mut buffer, &mut store, &mut counts, &mut codec);
+    assert!(matches!(r, Ok(BufferStatus::CodecFull)), "a full codec must report CodecFull");
+    let p = store.resolve(key);
+    assert!(p.is_pending_open && !p.is_pending_send && !p.is_counted,
+        "C04: stream taken out of pending_open although its HEADERS cannot be written now");
+    assert!(!pending_open_empty(&prio) && pending_send_empty(&prio));
+    assert!(counts_h::get_counts(&counts).0 == num);
+    assert!(codec_buffered(&codec).is_empty());
+    kani::cover!(num < max, "slot_free");
+    kani::cover!(true, "end");
+    std::mem::forget(r);
+    std::mem::forget(codec);
+    std::mem::forget(store);
+    std::mem::forget(counts);
+    std::mem::forget(prio);
+}
